@@ -270,6 +270,12 @@ func translate(repo, pkgdir string, roots, fuels, params, ifaces, shapes, requir
 		return sb.String(), nil
 	}
 	var body strings.Builder
+	bodyOfFn := func(fi *fnInfo) *strings.Builder {
+		if f, ok := stage11.splitFn[fnKey(fi)]; ok {
+			return splitBody[f]
+		}
+		return bodyOf(fi.pk.path, &body, splitBody)
+	}
 	for _, fi := range t.order {
 		// a function is left out when a function it calls is left out, when its
 		// control skeleton is not the one the proofs were written for, or when it
@@ -289,11 +295,11 @@ func translate(repo, pkgdir string, roots, fuels, params, ifaces, shapes, requir
 			if err != nil {
 				fi.skip = err.Error()
 			} else {
-				bodyOf(fi.pk.path, &body, splitBody).WriteString(text)
+				bodyOfFn(fi).WriteString(text)
 				continue
 			}
 		}
-		bodyOf(fi.pk.path, &body, splitBody).WriteString("\n(* NOT TRANSLATED: " + fnKey(fi) + ": " + commentSafe(fi.skip) + " *)\n")
+		bodyOfFn(fi).WriteString("\n(* NOT TRANSLATED: " + fnKey(fi) + ": " + commentSafe(fi.skip) + " *)\n")
 	}
 	// the functions that must be there
 	need := map[string]bool{}
@@ -791,6 +797,16 @@ func addParam(fi *fnInfo, p param) {
 // opaqueName: the name of a named interface or func type that --iface made an
 // opaque handle ("" otherwise)
 func (t *tr) opaqueName(ty types.Type) string {
+	if tp, isTP := types.Unalias(ty).(*types.TypeParam); isTP {
+		// a value of a type parameter constrained by a named interface that --iface made opaque
+		// (V CacheItem): its methods are the parameters named for that interface
+		if cn, ok := types.Unalias(tp.Constraint()).(*types.Named); ok && t.opaque[cn.Obj().Name()] {
+			if _, isI := cn.Underlying().(*types.Interface); isI {
+				return cn.Obj().Name()
+			}
+		}
+		return ""
+	}
 	n, ok := types.Unalias(ty).(*types.Named)
 	if !ok {
 		return ""
@@ -1213,7 +1229,45 @@ func (t *tr) structOf(ty types.Type) *types.Named {
 	if t.packed[n.Origin().Obj().Name()] {
 		return nil // a packed struct: a handle
 	}
+	// --transparent S.f: S is the struct its only field points to
+	for _, tr := range stage11.transparent {
+		i := strings.Index(tr, ".")
+		if i > 0 && tr[:i] == n.Origin().Obj().Name() {
+			st := n.Origin().Underlying().(*types.Struct)
+			if st.NumFields() == 1 && st.Field(0).Name() == tr[i+1:] {
+				if inner := t.structOf(st.Field(0).Type()); inner != nil {
+					return inner
+				}
+			}
+		}
+	}
 	return n
+}
+
+// transparentSel: x.f with f the one field of a --transparent struct
+func (t *tr) transparentSel(pk *pkgInfo, x *ast.SelectorExpr) bool {
+	sel, ok := pk.info.Selections[x]
+	if !ok || sel.Kind() != types.FieldVal || len(stage11.transparent) == 0 {
+		return false
+	}
+	tv, ok := pk.info.Types[x.X]
+	if !ok {
+		return false
+	}
+	ty := types.Unalias(tv.Type)
+	if p, ok := ty.(*types.Pointer); ok {
+		ty = types.Unalias(p.Elem())
+	}
+	n, ok := ty.(*types.Named)
+	if !ok {
+		return false
+	}
+	for _, tr := range stage11.transparent {
+		if tr == n.Origin().Obj().Name()+"."+x.Sel.Name {
+			return true
+		}
+	}
+	return false
 }
 
 func (t *tr) structInfoOf(at ast.Node, n *types.Named) *structInfo {
